@@ -139,11 +139,10 @@ impl Iterator for IndicesIterator<'_> {
     type Item = ArrayIndices;
 
     fn next(&mut self) -> Option<Self::Item> {
-        let mut indices = unravel_index(self.range.start as u64, self.subset.shape());
-        std::iter::zip(indices.iter_mut(), self.subset.start())
-            .for_each(|(index, start)| *index += start);
-
         if self.range.start < self.range.end {
+            let mut indices = unravel_index(self.range.start as u64, self.subset.shape());
+            std::iter::zip(indices.iter_mut(), self.subset.start())
+                .for_each(|(index, start)| *index += start);
             self.range.start += 1;
             Some(indices)
         } else {
